@@ -1105,7 +1105,7 @@ def c10(chk):
     lens = {0, 1, 2, 3, 5} if quick else {0, 1, 2, 3, 4, 5, 6, 33, 40}
     for rep in range(2 if quick else 6):
         os.environ["VERIF_SEED_SHIFT"] = str(rep)
-        spec_stage(chk, "upload_%d" % rep, "Upload.tla", dict(Lens=lens, Kinds={"none", "readerr", "cancel", "cut"}, Variant=up_var),
+        spec_stage(chk, "upload_%d" % rep, "Upload.tla", dict(Lens=lens, Kinds={"none", "readerr", "cancel", "cut"}, Variant=up_var, SendVariant="repaired"),
                    invariants=("XNoTrace", "XNeverPartial"), **common)
     os.environ.pop("VERIF_SEED_SHIFT", None)
     chk.assumptions += ["no-space is injected at the content file's Write (fully, or after half of the chunk was stored), not produced by a full file system",
@@ -1122,6 +1122,18 @@ def c11(chk):
              mode="both", keep=has("begin"), sample=2500 if quick else 30000)
     l1_stage(chk, "ext_late_restart", dict(Keys=K1, MaxTx=2, MaxSteps=5, Levels={"RU", "RC", "RR"}, Ops={"set", "begin", "commit", "rollback", "late", "gc", "reopen"}),
              mode="both", keep=late, sample=1500 if quick else 20000)
+    spec_stage(chk, "error_mapping", "ErrMap.tla", {}, view=None, emit="Emit", invariants=("RoundTrip", "JoinKeepsAPart"), properties=(),
+               exe="errmap", fs=False, chunk=100)
+    # a verdict the server gives before the upload is over (empty key on the header, no space after the first chunk),
+    # reaching the client after any number of units
+    up_var = "repaired" if fixed_sig("streamreader-error-as-eof") else "asfound"
+    send_var = "repaired" if fixed_sig("stream-send-eof-hides-verdict") else "asfound"
+    for rep in range(1 if quick else 4):
+        os.environ["VERIF_SEED_SHIFT"] = str(rep)
+        spec_stage(chk, "stream_verdict_%d" % rep, "Upload.tla",
+                   dict(Lens={0, 1, 2, 3, 5, 33} if quick else {0, 1, 2, 3, 4, 5, 6, 33, 40, 67}, Kinds={"reject_emptykey", "reject_nospace"}, Variant=up_var, SendVariant=send_var),
+                   view=None, emit="Emit", invariants=("XVerdictPreserved", "XNoTrace"), properties=(), exe="faults", fs=False, chunk=12)
+    os.environ.pop("VERIF_SEED_SHIFT", None)
     l0_traces(chk, "ext_traces", 12 if quick else 120, 300, 6, 4, "set,del,begin,commit,rollback,gc,emptyset,late,reopen", mode="external", big=True)
     l1_stage(chk, "ext_sim", dict(Keys=K3, MaxTx=3, MaxSteps=30, Levels={"RU", "RC", "RR", "SER"}, Ops=TXOPS | {"emptyset", "gc"}),
              mode="both", simulate=40 if quick else 800, depth=30)
